@@ -15,6 +15,7 @@ Definition run_model (m : Z) (params : list Z) (rows : list (list Z)) : list (li
   | 15%Z => run_cb params rows
   | 16%Z => run_c16 params rows
   | 19%Z => run_waker params rows
+  | 103%Z => run_ffi params rows
   | 106%Z => run_life params rows
   | 108%Z => run_casts params rows
   | _ => [[-3]%Z]
